@@ -305,6 +305,35 @@ func runCheck(o *checkOpts) int {
 			fmt.Printf("VIOLATION property=%s replay=%s no-failing-input-found\n", o.prop, path)
 		}
 	}
+	// ---- bounded stand-ins (real code, labelled bounded, not counted as proved) ----
+	var standins []standinResult
+	if o.only == "" {
+		standins = runStandins(o)
+	}
+	for _, sr := range standins {
+		name := sr.Name + "#bounded"
+		switch sr.Status {
+		case "held":
+			fmt.Printf("BOUNDED-STANDIN %s %s held (%s)\n", o.prop, name, sr.Bound)
+		default:
+			if kf := known.match(o.prop, name); kf != "" && sr.Status == "failed" {
+				fmt.Printf("KNOWN-FINDING: property=%s obligation=%s %s\n", o.prop, name, kf)
+				continue
+			}
+			violations++
+			exit = 1
+			path := filepath.Join(replayDir, sanitizeFile(name)+".json")
+			writeJSON(path, map[string]interface{}{"property": o.prop, "obligation": name, "kind": "bounded stand-in: in-package test run on the real code with go test -overlay", "status": sr.Status,
+				"test_file": sr.File, "package_dir": sr.Dir, "bound": sr.Bound, "go_test_output": sr.Output,
+				"rerun": "cd /repo && go test -overlay <overlay mapping " + sr.Dir + "/zz_verif_standin_test.go to " + sr.File + "> -vet=off -count=1 ./" + sr.Dir + "/"})
+			fmt.Printf("FAILED-OBLIGATION %s %s [%s] bounded stand-in on the real code: %s\n", o.prop, name, sr.Status, strings.TrimSpace(firstFailLine(sr.Output)))
+			if sr.Status == "failed" {
+				fmt.Printf("VIOLATION property=%s replay=%s\n", o.prop, path)
+			} else {
+				fmt.Printf("VIOLATION property=%s replay=%s no-failing-input-found\n", o.prop, path)
+			}
+		}
+	}
 	if o.verbose {
 		for _, ob := range all {
 			fmt.Printf("  %-8s %-60s %6.2fs %s\n", ob.Status, ob.Name, ob.TimeS, ob.Solver)
@@ -411,7 +440,8 @@ func runCheck(o *checkOpts) int {
 		"assume_ext":               assumedList,
 		"unsupported_functions":    unsupportedFns,
 		"not_covered_clauses":      meta.NotCovered,
-		"bounded_standins":         meta.BoundedStandins,
+		"bounded_standins":         append(append([]string{}, meta.BoundedStandins...), standinSummaries(standins)...),
+		"bounded_standin_runs":     standins,
 		"per_solver_timeout_s":     o.timeoutS,
 		"mustfail_canaries":        canaries,
 		"rule":                     "one obligation per contract clause, safety condition, loop-invariant step and frame condition on each symbolic path of each function under contract; every obligation is a closed formula valid for all inputs",
@@ -492,6 +522,26 @@ func runCanaries(o *checkOpts) (map[string]string, bool) {
 		}()
 	}
 	return out, bad
+}
+
+func standinSummaries(rs []standinResult) []string {
+	var out []string
+	for _, r := range rs {
+		out = append(out, fmt.Sprintf("%s: BOUNDED (not proved) - %s - %s on this run", r.Name, r.Bound, r.Status))
+	}
+	return out
+}
+
+func firstFailLine(s string) string {
+	for _, l := range strings.Split(s, "\n") {
+		if strings.Contains(l, "_test.go:") {
+			return l
+		}
+	}
+	if len(s) > 200 {
+		return s[:200]
+	}
+	return s
 }
 
 func round2(f float64) float64 { return float64(int(f*100+0.5)) / 100 }
